@@ -764,6 +764,24 @@ def enumerate_mutations(c, rng, per_kind=2):
             if _join_collide(i1, p1, i2, p2):
                 collm.append(dict(mv, colliding=True))
     out.extend(pick(collm, 3))
+    # connection moves between siblings that carry the same EDIF.identifier metadata (same port and bit /
+    # same bit): always taken
+    shared = []
+    for mv in moves.get("move_other_inst", []) + moves.get("move_inner", []):
+        d_ = c["libraries"][mv["lib"]]["definitions"][mv["def"]]
+        src = d_["cables"][mv["cable"]]["wires"][mv["wire"]][mv["pos"]]
+        dst = mv["to"]
+        if src[0] == "i" and dst[0] == "i" and src[2:] == dst[2:]:
+            i1 = d_["instances"][src[1]].get("data", {}).get("EDIF.identifier")
+            i2 = d_["instances"][dst[1]].get("data", {}).get("EDIF.identifier")
+            if i1 is not None and i1 == i2 and d_["instances"][src[1]]["ref"] == d_["instances"][dst[1]]["ref"]:
+                shared.append(dict(mv, sharedid=True))
+        elif src[0] == "p" and dst[0] == "p" and src[2] == dst[2]:
+            i1 = d_["ports"][src[1]].get("data", {}).get("EDIF.identifier")
+            i2 = d_["ports"][dst[1]].get("data", {}).get("EDIF.identifier")
+            if i1 is not None and i1 == i2:
+                shared.append(dict(mv, sharedid=True))
+    out.extend(pick(shared, 3))
     # one connection added / dropped / moved to another net
     extra = {"connect_free": [], "disconnect": [], "move_to_other_wire": []}
     for li, di in sites:
@@ -903,6 +921,27 @@ def enumerate_mutations(c, rng, per_kind=2):
         out.append({"op": "rename_top", "name": "zz_top"})
     elif sites:
         out.append({"op": "add_top", "to": list(rng.choice(sites)), "name": "xtop"})
+    # elements named "" (a legal name) and elements inside a library / definition named "": always mutated
+    for (li, di) in sites:
+        lib_ = c["libraries"][li]
+        d_ = lib_["definitions"][di]
+        inside = lib_["name"] == "" or d_["name"] == ""
+        for pi, p_ in enumerate(d_["ports"]):
+            if p_["name"] == "" or (inside and pi == 0):
+                out.append({"op": "port_dir", "lib": li, "def": di, "port": pi, "emptyname": True,
+                            "dir": rng.choice([x for x in DIRS if x != p_["dir"]])})
+                if p_["name"] == "":
+                    out.append({"op": "port_widen", "lib": li, "def": di, "port": pi, "emptyname": True})
+        for ci, cb_ in enumerate(d_["cables"]):
+            if cb_["name"] == "" or (inside and ci == 0):
+                out.append({"op": "cable_widen", "lib": li, "def": di, "cable": ci, "emptyname": True})
+        for ki, k_ in enumerate(d_["instances"]):
+            if k_["name"] == "" or (inside and ki == 0):
+                rr = [r_ for r_ in rep if (r_["lib"], r_["def"], r_["inst"]) == (li, di, ki)]
+                for r_ in pick(rr, 1):
+                    out.append(dict(r_, emptyname=True))
+                if k_.get("props"):
+                    out.append({"op": "prop_dropall", "lib": li, "def": di, "inst": ki, "emptyname": True})
     return out
 
 
@@ -1722,6 +1761,10 @@ def decorate(nl, rng, twins=True, props=True, oids=True, collide=True):
                         q.is_scalar = p.is_scalar
     if collide and rng.random() < 0.6:
         _decorate_collisions(nl, rng)
+    if rng.random() < 0.4:
+        _decorate_shared_identifiers(nl, rng)
+    if rng.random() < 0.4:
+        _decorate_empty_names(nl, rng)
     if rng.random() < 0.1:
         # a named port without pins (legal through the API)
         ds = [d for lib in nl.libraries for d in lib.definitions]
@@ -1789,6 +1832,51 @@ def _decorate_collisions(nl, rng):
             cb = m.create_cable(name=_fresh([c.name for c in m.cables], "Ncol"))
             cb.create_wires(1)
             cb.wires[0].connect_pin(k.pins[p1.pins[0]])
+
+
+def _decorate_shared_identifiers(nl, rng):
+    """Under the DEFAULT policy `EDIF.identifier` is plain metadata that siblings may share (e.g. a netlist
+    written once as EDIF, then an instance duplicated with clone() + rename + add_child): a second instance of
+    the same definition / a second port of the same width carries the first one's identifier, its pins free."""
+    insts = [(m, k) for lb in nl.libraries for m in lb.definitions for k in m.children
+             if k.name and k.reference is not None and any(q.wire is not None for q in k.pins)]
+    if insts:
+        m, k = rng.choice(insts)
+        k2 = m.create_child(name=_fresh([x.name for x in m.children], "Idup"), reference=k.reference)
+        k["EDIF.identifier"] = "id_" + (k.name or "k").replace(" ", "_")
+        k2["EDIF.identifier"] = k["EDIF.identifier"]
+    ports = [(d, p) for lb in nl.libraries for d in lb.definitions for p in d.ports
+             if p.name and any(q.wire is not None for q in p.pins)]
+    if ports and rng.random() < 0.5:
+        d, p = rng.choice(ports)
+        p2 = d.create_port(name=_fresh([x.name for x in d.ports], "Pdup"))
+        p2.direction = p.direction
+        p2.create_pins(len(p.pins))
+        if len(p.pins) == 1:
+            p2.is_scalar = p.is_scalar
+        p["EDIF.identifier"] = "id_" + p.name.replace(" ", "_")
+        p2["EDIF.identifier"] = p["EDIF.identifier"]
+
+
+def _decorate_empty_names(nl, rng):
+    """The empty string is a legal name: at most one library, one definition per library, one port / cable /
+    instance per definition is renamed to ""."""
+    def rename(lst):
+        lst = [x for x in lst]
+        if lst and all(x.name != "" for x in lst) and rng.random() < 0.6:
+            x = rng.choice(lst)
+            if x.name is not None:
+                x.name = ""
+    rename(nl.libraries)
+    libs = list(nl.libraries)
+    if libs:
+        rename(rng.choice(libs).definitions)
+    ds = [d for lib in nl.libraries for d in lib.definitions]
+    rng.shuffle(ds)
+    for d in ds[:3]:
+        rename(d.ports)
+        rename(d.cables)
+        rename(d.children)
 
 
 def _join_collide(x1, y1, x2, y2):
@@ -1935,7 +2023,7 @@ def shard(seed, idx, n_netlists, deadline_s, tier):
                 ms = enumerate_mutations(ca, rng, per_kind=pk)
                 for m in ms:
                     handle({"a": ca, "copy": kind, "mut": [m]}, kind + "+" + m["op"] + (":" + m["kind"] if "kind" in m else "")
-                           + (":colliding-names" if m.get("colliding") else ""))
+                           + (":colliding-names" if m.get("colliding") else "") + (":empty-name" if m.get("emptyname") else "") + (":shared-identifier" if m.get("sharedid") else ""))
             # 3. the original itself carries oddities (assignment names, wildcard names), copy faithful
             odd = []
             insts = [(li, di, ki) for li, lib in enumerate(ca["libraries"]) for di, d in enumerate(lib["definitions"])
